@@ -1908,7 +1908,10 @@ impl Scanner {
         }
 
         // Stage 4: limit / offset
-        if use_limit_node && (self.limit.unwrap_or(0) > 0 || self.offset.is_some()) {
+        if use_limit_node && self.limit == Some(0) {
+            // LIMIT 0 returns nothing (and must not reach a TopK, which requires k > 0)
+            plan = Arc::new(EmptyExec::new(plan.schema()));
+        } else if use_limit_node && (self.limit.is_some() || self.offset.is_some()) {
             plan = self.limit_node(plan);
         }
 
